@@ -85,7 +85,15 @@ func runC12(c *Ctx) {
 				x1, ok1 := r.Results[1].(*ssa.Extract)
 				if ok0 && ok1 && x0.Tuple == x1.Tuple && x0.Index == 0 && x1.Index == 1 {
 					if cl, isC := x0.Tuple.(*ssa.Call); isC {
-						if g := cl.Call.StaticCallee(); g != nil && inModule(g) && isDocErr(g) {
+						// every possible callee (a static one, or the entries of a function table) is itself checked
+						cs := c.Callees(&cl.Call)
+						all := len(cs) > 0
+						for _, g := range cs {
+							if !inModule(g) || !isDocErr(g) {
+								all = false
+							}
+						}
+						if all {
 							continue
 						}
 					}
